@@ -514,6 +514,69 @@ fn pools_mode(rng: &mut Rng, n: usize, thorough: bool) {
   }
 }
 
+// ------------------------------------------------------------------------------------------------ rayon's bridge, observed
+/// an index-range producer that records every split_at rayon's bridge asks for (validates Model/C15_Bridge.v against the real rayon)
+struct LogProducer {
+  lo: usize,
+  hi: usize,
+  log: std::sync::Arc<std::sync::Mutex<Vec<(usize, usize, usize)>>>,
+}
+impl Producer for LogProducer {
+  type Item = usize;
+  type IntoIter = std::ops::Range<usize>;
+  fn into_iter(self) -> Self::IntoIter {
+    self.lo..self.hi
+  }
+  fn split_at(self, index: usize) -> (Self, Self) {
+    self.log.lock().unwrap().push((self.lo, self.hi, index));
+    (LogProducer { lo: self.lo, hi: self.lo + index, log: self.log.clone() }, LogProducer { lo: self.lo + index, hi: self.hi, log: self.log })
+  }
+}
+struct LogIter {
+  len: usize,
+  log: std::sync::Arc<std::sync::Mutex<Vec<(usize, usize, usize)>>>,
+}
+impl ParallelIterator for LogIter {
+  type Item = usize;
+  fn drive_unindexed<C: rayon::iter::plumbing::UnindexedConsumer<usize>>(self, consumer: C) -> C::Result {
+    rayon::iter::plumbing::bridge(self, consumer)
+  }
+  fn opt_len(&self) -> Option<usize> {
+    Some(self.len)
+  }
+}
+impl IndexedParallelIterator for LogIter {
+  fn len(&self) -> usize {
+    self.len
+  }
+  fn drive<C: rayon::iter::plumbing::Consumer<usize>>(self, consumer: C) -> C::Result {
+    rayon::iter::plumbing::bridge(self, consumer)
+  }
+  fn with_producer<CB: ProducerCallback<usize>>(self, callback: CB) -> CB::Output {
+    callback.callback(LogProducer { lo: 0, hi: self.len, log: self.log })
+  }
+}
+
+fn bridge_mode(rng: &mut Rng, n: usize) {
+  let mut lens: Vec<usize> = vec![0, 1, 2, 3, 4, 5, 7, 10, 64, 100, 1000];
+  for _ in 0..n {
+    lens.push(1 + rng.below(10000));
+  }
+  for len in lens {
+    for threads in [1usize, 2, 4, 16] {
+      let r = on_pool(threads, 120, "bridge split log", move || {
+        let log = std::sync::Arc::new(std::sync::Mutex::new(vec![]));
+        let total: usize = LogIter { len, log: log.clone() }.map(|i| i).sum();
+        let v = log.lock().unwrap().clone();
+        (total, v)
+      });
+      if let Some((total, v)) = r {
+        emit(json!({"kind": "bridge_log", "len": len, "threads": threads, "sum": total, "splits": v.iter().map(|(a, b, k)| json!([a, b, k])).collect::<Vec<_>>()}));
+      }
+    }
+  }
+}
+
 /// Simpson's rule is exact on cubics: Integrator::Simpson on polynomials that do NOT vanish at the upper limit, for division counts on
 /// both sides of the 128-division threshold (sequential / parallel branch of `simpson`) and on pools of 1..16 threads; 2-D likewise.
 fn simpson_mode(rng: &mut Rng, n: usize) {
@@ -557,6 +620,9 @@ pub fn run(args: &[String]) {
   }
   if mode == "pools" || mode == "all" {
     pools_mode(&mut rng, n, thorough);
+  }
+  if mode == "bridge" || mode == "all" {
+    bridge_mode(&mut rng, n);
   }
   if mode == "simpson" || mode == "all" {
     simpson_mode(&mut rng, n);
